@@ -1,4 +1,4 @@
-mod rng; mod util; mod c17; mod oplist; mod ops; mod amod; mod c03; mod env; mod sigs; mod gen; mod gen_ir_print; mod irdump; mod body; mod c15; mod wmodcoq; mod genattr; mod modrun; mod oracles; mod dbg; mod c18; mod c11; mod c05; mod c10; mod c09; mod c01; mod deep; mod c18x; mod c14; mod diecur; mod c01core; mod c01inst; mod c01bulk; mod frame; mod bytes;
+mod rng; mod util; mod c17; mod oplist; mod ops; mod amod; mod c03; mod env; mod sigs; mod gen; mod gen_ir_print; mod irdump; mod body; mod c15; mod wmodcoq; mod genattr; mod modrun; mod oracles; mod dbg; mod c18; mod c11; mod c05; mod c10; mod c09; mod c01; mod deep; mod c18x; mod c14; mod diecur; mod c01core; mod c01inst; mod c01bulk; mod frame; mod bytes; mod modbytes;
 fn main() {
     util::quiet_panics();
     let args: Vec<String> = std::env::args().collect();
@@ -25,6 +25,8 @@ fn main() {
         Some("c01bulk") => c01bulk::gen_main(&args[2..]),
         Some("bytes") => bytes::main(&args[2..]),
         Some("optable") => bytes::optable_main(),
+        Some("modbytes") => modbytes::main(&args[2..]),
+        Some("modbytes-example") => modbytes::example_main(),
         Some("deep") => deep::main(&args[2..]),
         Some("c18gen") => c18x::gen_main(&args[2..]),
         Some("c09run") => c09::run_main(&args[2..]),
